@@ -657,7 +657,9 @@ class Lifter:
                 if isinstance(x, tuple) and len(x) > 3 and x[0] == 'q' and x[1] in ('upper_bound', 'lower_bound') and x[2] in self.aux \
                         and self.aux[x[2]][1] == 'ttl' and len(x[3]) == 1 and isinstance(x[3][0], tuple) and x[3][0][:1] == ('now',) \
                         and isinstance(y, tuple) and len(y) > 2 and y[0] == 'q' and y[1] in ('begin', 'cbegin') and y[2] == x[2] \
-                        and (x[4] or 0) == (y[4] or 0):
+                        and ((x[4] or 0) == (y[4] or 0) or (x[4] or 0) < 0):
+                    # (a bound taken once before the loop - epoch < 0 - stays the first live node while the loop only pops nodes in
+                    # front of it: tree iterators are stable, and what the iterations do to the structure is judged by the sweep rules)
                     d = ('ld', 0, ('fld', ('deref', ('q', 'begin', x[2], (), y[4])), 'first'))
                     ent = Ent('AUXHEAD', self.aux[x[2]][0], y[4] or 0, d)
                     return ('EXPIRED' if x[1] == 'upper_bound' else 'EXPIRED_STRICT', (ent, x[3][0], d), op == '!=')
@@ -1253,6 +1255,12 @@ class Segment:
                     ent.walker = args[0][1]
                     self.conds.append(('EXPIRED', (ent, args[2], ('fld', ('deref', args[0]), 'first')), True, e[3], e[1], e[2]))
                     self.order.append(('cond', len(self.conds) - 1))
+                    self.conds.append(('NONEMPTY', (), True, e[3], e[1], e[2]))
+                    self.order.append(('cond', len(self.conds) - 1))
+                if kind in ('EXPIRED', 'EXPIRED_STRICT') and truth and isinstance(e[1], tuple) and len(e[1]) == 4 and e[1][0] == 'cmp' \
+                        and e[1][1] in ('==', '!=') and any(isinstance(x, tuple) and len(x) > 1 and x[0] == 'q' and x[1] in ('upper_bound', 'lower_bound')
+                                                            for x in e[1][2:4]):
+                    # begin() != upper_bound(now): some key is <= now, so there is an entry at all
                     self.conds.append(('NONEMPTY', (), True, e[3], e[1], e[2]))
                     self.order.append(('cond', len(self.conds) - 1))
                 if kind == 'ALLOW_IS' and truth:
